@@ -194,6 +194,41 @@ func c05inputs(thorough bool) []c05input {
 				body: Doc("Create", "", "actor", Alice, "to", Carol, "object", objs)})
 		}
 	}
+	// two / three objects with every attribution pattern over {none, the actor, another actor, both} per object
+	// (an actor that one object already names must still be added to the others)
+	attrOpts := []interface{}{nil, Alice, Bob, L{Bob, Alice}}
+	for _, n := range []int{2, 3} {
+		assign4 := func(f func(a []int)) {
+			idx := make([]int, n)
+			for {
+				f(append([]int(nil), idx...))
+				k := 0
+				for k < n {
+					idx[k]++
+					if idx[k] < len(attrOpts) {
+						break
+					}
+					idx[k] = 0
+					k++
+				}
+				if k == n {
+					return
+				}
+			}
+		}
+		assign4(func(a []int) {
+			objs := L{}
+			for i := 0; i < n; i++ {
+				o := Emb("Note", "", "content", fmt.Sprintf("o%d", i))
+				if v := attrOpts[a[i]]; v != nil {
+					o["attributedTo"] = v
+				}
+				objs = append(objs, o)
+			}
+			ins = append(ins, c05input{name: fmt.Sprintf("create-%d attribution %v", n, a), entry: "PostOutbox", kind: ap.Both, nObj: n,
+				body: Doc("Create", "", "actor", Alice, "to", Carol, "object", objs)})
+		})
+	}
 	// two / three objects: to, bto, bcc on the activity and on each object
 	three := []string{"to", "bto", "bcc"}
 	opts2 := []interface{}{nil, rx, ry}
@@ -853,7 +888,7 @@ func C05(tier string) int {
 	res.Extra["history_alphabet"] = len(posts)
 	res.Extra["fault_bound_completed"] = bound
 	res.Extra["fault_scenarios"] = len(faultIns)
-	res.Rule = fmt.Sprintf("(1) inputs: Create with one object and every assignment of {absent,{x},{y,z}} to the five addressing properties of activity and object (3^10, quick: a quarter plus all bto/bcc cross pairs) with 4 attribution variants, bare Note/Article over 3^5 assignments x published x 4 entry/actor combinations, bare Notes whose published is a boundary instant (zero time, epoch, end of year 9999, offsets +14:00 / -12:00, a leap day), Creates with 2 (thorough 3) objects over to/bto/bcc, Creates with 5, 6, 7, 9 and 13 objects, 9 other activity types: %d posts, judged with set semantics on the stored activity and stored objects (a sixth of them, and every re-spelled one, on an Actor that has just refused a Create carrying recipients of its own); (2) histories: explicit-state search, every sequence of up to %d posts over a %d-post alphabet (two outboxes, Send, a rejected post), each transition is a real request on a cloned application state, invariant in every state: each outbox lists exactly the returned ids, newest first, once, all stored; (3) fault sequences: %d posts (each with and without application callbacks wrapped around the default effect) x every choice of <= %d (a dozen posts and the multi-object Creates always: <= 2) failing seam calls: nothing is handed to the transport after a failed persistence step and success is not reported; (4) 4 posts x 2 actor kinds with the endpoint scheme and the scheme of the minted ids chosen independently: the Location is the stored id at the front of the outbox; (5) 3 posts x 2 actor kinds to outbox endpoints whose IRI carries a routing query, a percent-escape, a query after the path or an explicit port: accepted, the id is at the front of THAT outbox, the activity's actor is its owner; states = distinct application states of (2), transitions = requests applied", len(ins), depth, len(posts), len(faultIns), bound)
+	res.Rule = fmt.Sprintf("(1) inputs: Create with one object and every assignment of {absent,{x},{y,z}} to the five addressing properties of activity and object (3^10, quick: a quarter plus all bto/bcc cross pairs) with 4 attribution variants, bare Note/Article over 3^5 assignments x published x 4 entry/actor combinations, bare Notes whose published is a boundary instant (zero time, epoch, end of year 9999, offsets +14:00 / -12:00, a leap day), Creates with 2 (thorough 3) objects over to/bto/bcc, Creates with 2 and 3 objects under every attribution pattern, Creates with 5, 6, 7, 9 and 13 objects, 9 other activity types: %d posts, judged with set semantics on the stored activity and stored objects (a sixth of them, and every re-spelled one, on an Actor that has just refused a Create carrying recipients of its own); (2) histories: explicit-state search, every sequence of up to %d posts over a %d-post alphabet (two outboxes, Send, a rejected post), each transition is a real request on a cloned application state, invariant in every state: each outbox lists exactly the returned ids, newest first, once, all stored; (3) fault sequences: %d posts (each with and without application callbacks wrapped around the default effect) x every choice of <= %d (a dozen posts and the multi-object Creates always: <= 2) failing seam calls: nothing is handed to the transport after a failed persistence step and success is not reported; (4) 4 posts x 2 actor kinds with the endpoint scheme and the scheme of the minted ids chosen independently: the Location is the stored id at the front of the outbox; (5) 3 posts x 2 actor kinds to outbox endpoints whose IRI carries a routing query, a percent-escape, a query after the path or an explicit port: accepted, the id is at the front of THAT outbox, the activity's actor is its owner; states = distinct application states of (2), transitions = requests applied", len(ins), depth, len(posts), len(faultIns), bound)
 	res.Assumptions = []string{"order and duplicates inside addressing lists are not asserted (set semantics)", "objects are not required to gain each other's recipients", "application state is cloned between history steps (the model is ours, so it can be)"}
 	return res.Finish()
 }
